@@ -899,13 +899,22 @@ theorem unsubscribe_state {r : Root} (inv : DispInv r) (id : Id) :
   obtain ⟨n, hn, _, _, hcls⟩ := hsh j n' hn'
   exact inert c hc j n (ho.mono hsh) hn cl (hcls cl hcl)
 
+/-- the loop of `disposeNode` (D23) has nothing to do on a dead node -/
+theorem disposeRest_dead {f : Nat} {r : Root} {id : Id} (h : r.get? id = none) :
+    disposeRest (f + 1) r id = .ok r := by
+  simp [disposeRest, h]
+
+/-- the loop of `disposeNode` (D23) has nothing to do on a node that holds no children and no cleanups -/
+theorem disposeRest_drained {f : Nat} {r : Root} {id : Id} {n : Node} (h : r.get? id = some n)
+    (hc : n.children = []) (hl : n.cleanups = []) : disposeRest (f + 1) r id = .ok r := by
+  simp [disposeRest, h, hc, hl]
+
 theorem pNode_succ {f : Nat} (hC : PChildren f) : PNode (f + 1) := by
   intro r id r' inv inert hx
   simp only [disposeNode] at hx
   split at hx
   · cases hx
   · rename_i r2 h1
-    cases hx
     cases hn : r.get? id with
     | none =>
       rw [unsubscribe_dead hn] at h1
@@ -914,6 +923,8 @@ theorem pNode_succ {f : Nat} (hC : PChildren f) : PNode (f + 1) := by
       | succ f =>
         simp only [disposeChildren, hn] at h1
         cases h1
+        rw [disposeRest_dead hn] at hx
+        cases hx
         rw [removeNode_dead hn]
         exact ⟨[], [], .dead hn .nil, .refl r, .refl r, by simp, by simp, by simp⟩
     | some n =>
@@ -923,6 +934,12 @@ theorem pNode_succ {f : Nat} (hC : PChildren f) : PNode (f + 1) := by
       have hidS : id ∉ S := fun h => Nat.lt_irrefl _ (D.gt id h)
       have hid2 : r2.get? id = some (cleared (eraseIds S (unlinked id id n))) := by
         rw [D.get]; simp [hidS]
+      obtain ⟨f0, rfl⟩ : ∃ f0, f = f0 + 1 := by
+        cases f with
+        | zero => simp [disposeChildren] at h1
+        | succ f0 => exact ⟨f0, rfl⟩
+      rw [disposeRest_drained hid2 rfl rfl] at hx
+      cases hx
       have hedges := D.edges hn1
       have hrem := removeNode_removed (hedges.1 inv1.nd) (hedges.2 inv1.sym) id
       have hfor : Forest r n.children S := Forest.of_unsubscribe D.forest
@@ -1129,7 +1146,7 @@ theorem tList_of_tNode {K W m : Nat} (hN : TNode K W m) : TList K W m := by
 theorem tNode_dead {K W m : Nat} {r : Root} {id : Id} (hn : r.get? id = none) (f : Nat)
     (hf : needFuel K W m ≤ f) : ∃ r', disposeNode f r id = .ok r' := by
   obtain ⟨f', rfl⟩ : ∃ f', f = f' + 2 := ⟨f - 2, by simp only [needFuel] at hf; omega⟩
-  exact ⟨r, by simp [disposeNode, disposeChildren, unsubscribe, hn, removeNode]⟩
+  exact ⟨r, by simp [disposeNode, disposeChildren, disposeRest, unsubscribe, hn, removeNode]⟩
 
 theorem sz_step (s i c m : Nat) (h1 : s - i ≤ m + 1) (h2 : i < c) : s - c ≤ m := by omega
 
@@ -1232,7 +1249,11 @@ theorem tNode_succ {K W m : Nat} (hL : TList K W m) : TNode K W (m + 1) := by
         obtain ⟨mj, hmj, rfl⟩ := hn'
         exact hb.cleanups j mj hmj
     obtain ⟨r3, h3⟩ := tChildren_succ hL (by rw [hfr1.size]; exact hsz) inv1 (hinert1 _ inert) hread1 hb1 hn1 f2 hf
-    exact ⟨removeNode r3 id, by simp only [disposeNode, h3]⟩
+    obtain ⟨S, evs, D⟩ := (dispose_all (f2 + 1)).2.2 _ id _ r3 inv1 (hinert1 _ inert) hn1 h3
+    have hidS : id ∉ S := fun h => Nat.lt_irrefl _ (D.gt id h)
+    have hid3 : r3.get? id = some (cleared (eraseIds S (unlinked id id n))) := by
+      rw [D.get]; simp [hidS]
+    exact ⟨removeNode r3 id, by simp only [disposeNode, h3, disposeRest_drained hid3 rfl rfl]⟩
 
 theorem tNode_all (K W : Nat) : ∀ m, TNode K W m
   | 0 => by
